@@ -96,12 +96,14 @@ def independent_group(g):
 
 
 def build_config(args):
-    name, en = args
+    name, en = args[:2]
+    overrides = args[2] if len(args) > 2 else None
     d = os.path.join(rt.TREE.dir, "cfg-%s-%d" % (re.sub(r"\W", "_", name), os.getpid()))
     shutil.rmtree(d, ignore_errors=True)
     os.makedirs(d)
     try:
-        build.gen_headers(os.path.join(d, "gen"), hashes=en, obsolete_api=("descrypt" in en))
+        build.gen_headers(os.path.join(d, "gen"), hashes=en, obsolete_api=("descrypt" in en),
+                          config_overrides=overrides)
         lib = os.path.join(build.REPO, "lib")
         objs = []
         for s in build.LIB_SOURCES:
